@@ -63,6 +63,10 @@ func rulesC19(c *Ctx) {
 	R.Rule("R3", "restore: secret and r from the same counter and the keyset's own path; proof rebuilt with the r of the matched B_", 2)
 	R.Rule("R4", "the stored counter is never overwritten with a stale value: a keyset record is saved with a counter read from storage, or 0 only for a keyset that is not stored yet", 6)
 	c.c19NoStaleCounter()
+	R.Rule("R5", "outputs are derived from the stored counter of the keyset they are derived on: the counter handed to the derivation was read for the same keyset id", 4)
+	c.c19CounterKeysetAgreement()
+	R.Rule("R6", "the wallet lock is not dropped between reading a keyset counter and advancing it", 3)
+	c.c19LockSpan()
 
 	// the swap request helper is consistent: outputs derived on the keyset it records
 	if f := c.fn("R1", fnCreateSwap); f != nil {
@@ -409,6 +413,26 @@ func (c *Ctx) c19Restore() {
 		R.Check("R2", fk, "scan stops after three consecutive empty batches", c.P.Pos(f.Pos()), false, "the scan continues while fewer than three consecutive batches were empty", "no loop with the condition '< 3' found")
 		return
 	}
+	// the scan of a keyset ends only through the loop condition: every other way out of the batch loop is an
+	// error exit (a `break` on some other criterion - a short batch, a count - ends the scan early)
+	{
+		okExit, whyExit := true, ""
+		for b := range batch.Blocks {
+			for i, sb := range b.Succs {
+				if batch.Blocks[sb] || (b == batch.Header && i == batch.ExitSucc) {
+					continue
+				}
+				for _, r := range o.SuccessReturns() {
+					if reach, path := Reach(Point{sb, 0}, PointOf(r), NewCut()); reach {
+						okExit = false
+						whyExit = "the batch loop is left at " + c.P.PathString([]*ssa.BasicBlock{b, sb}) + " and the operation can still succeed: " + c.P.PathString(path)
+					}
+				}
+			}
+		}
+		R.Check("R2", fk, "scan ends only through 'three consecutive empty batches'", c.P.InstrPos(batch.Header.Instrs[len(batch.Header.Instrs)-1]), okExit,
+			"apart from error exits the batch loop is left only when its condition fails", whyExit)
+	}
 	ifi := batch.Header.Instrs[len(batch.Header.Instrs)-1].(*ssa.If)
 	eb := ifi.Cond.(*ssa.BinOp).X
 	okEB := false
@@ -691,5 +715,122 @@ func (c *Ctx) c19NoStaleCounter() {
 	}
 	if n == 0 {
 		R.Unresolved("R4", "keyset record writes in the wallet", "no SaveKeyset call found")
+	}
+}
+
+// c19CounterKeysetAgreement: R5. createBlindedMessages(split, keysetId, &counter): the cell handed in was
+// filled by a read of the stored counter for that very keysetId (same provenance). A counter read for one
+// keyset and used to derive on another re-uses or skips (keyset, counter) pairs after a rotation.
+func (c *Ctx) c19CounterKeysetAgreement() {
+	R := c.R
+	n := 0
+	for _, f := range c.P.Funcs {
+		if f.Pkg == nil || c.P.Rel(f.Pkg.Pkg.Path()) != "wallet" {
+			continue
+		}
+		o := c.P.OriginsOf(f)
+		for _, ci := range Calls(f) {
+			d := c.P.Describe(ci)
+			if d.Name != fnCreateBM || len(d.Args) != 3 {
+				continue
+			}
+			cell, ok := d.Args[2].(*ssa.Alloc)
+			if !ok {
+				continue // nil counter (random outputs) or a counter passed on by the caller
+			}
+			n++
+			ks := o.Of(d.Args[1]).String()
+			okAll, why, reads := true, "", 0
+			for _, ref := range *cell.Referrers() {
+				st, isSt := ref.(*ssa.Store)
+				if !isSt || st.Addr != ssa.Value(cell) {
+					continue
+				}
+				call, isCall := st.Val.(*ssa.Call)
+				if !isCall {
+					continue
+				}
+				cd := c.P.Describe(call)
+				if cd.Name != "wallet.(*Wallet).counterForKeyset" && !(cd.Iface != nil && cd.Iface.Name() == "GetKeysetCounter") {
+					continue
+				}
+				reads++
+				if got := o.Of(cd.Args[0]).String(); got != ks {
+					okAll = false
+					why = "counter read for " + short(got, 100) + " at " + c.P.InstrPos(call) + ", outputs derived on " + short(ks, 100)
+				}
+			}
+			if reads == 0 {
+				okAll, why = false, "the counter cell is not filled from the stored counter"
+			}
+			R.Check("R5", c.P.FuncKey(f), "counter read for the keyset the outputs are derived on", c.P.InstrPos(ci), okAll,
+				"the counter handed to the output derivation is the stored counter of the same keyset id", why)
+		}
+	}
+	if n == 0 {
+		R.Unresolved("R5", "deterministic output derivations", "no call of "+fnCreateBM+" with a local counter")
+	}
+}
+
+// c19LockSpan: R6. In every wallet function that reads a stored keyset counter and later advances it, no
+// explicit Unlock / RUnlock of the wallet mutex lies between the read and the advance, and a lock the function
+// takes before the read is the exclusive one. (Releasing the lock during the round trip to the mint lets a
+// second operation read the same counter and submit the same outputs.) Functions that do not lock at all -
+// the lock is their caller's - satisfy the rule trivially; that some exported operations never lock is not
+// judged here.
+func (c *Ctx) c19LockSpan() {
+	R := c.R
+	n := 0
+	for _, f := range c.P.Funcs {
+		if f.Pkg == nil || c.P.Rel(f.Pkg.Pkg.Path()) != "wallet" || f.Parent() != nil {
+			continue
+		}
+		var reads, incrs, unlocks, rlocks []ssa.CallInstruction
+		for _, ci := range Calls(f) {
+			d := c.P.Describe(ci)
+			switch {
+			case d.Name == "wallet.(*Wallet).counterForKeyset" || (d.Iface != nil && d.Iface.Name() == "GetKeysetCounter"):
+				reads = append(reads, ci)
+			case c.isIncr(d):
+				incrs = append(incrs, ci)
+			case d.Name == "sync.(*RWMutex).Unlock" || d.Name == "sync.(*RWMutex).RUnlock" || d.Name == "sync.(*Mutex).Unlock":
+				if _, isCall := ci.(*ssa.Call); isCall {
+					unlocks = append(unlocks, ci)
+				}
+			case d.Name == "sync.(*RWMutex).RLock":
+				rlocks = append(rlocks, ci)
+			}
+		}
+		if len(reads) == 0 || len(incrs) == 0 {
+			continue
+		}
+		n++
+		o := c.P.OriginsOf(f)
+		ok, why := true, ""
+		for _, rd := range reads {
+			for _, u := range unlocks {
+				r1, _ := o.ReachAvoiding(rd, u, NewCut())
+				if !r1 {
+					continue
+				}
+				for _, ic := range incrs {
+					if r2, _ := o.ReachAvoiding(u, ic, NewCut()); r2 {
+						ok = false
+						why = "the lock is released at " + c.P.InstrPos(u) + " between the counter read at " + c.P.InstrPos(rd) + " and the advance at " + c.P.InstrPos(ic)
+					}
+				}
+			}
+			for _, rl := range rlocks {
+				if r1, _ := o.ReachAvoiding(rl, rd, NewCut()); r1 {
+					ok = false
+					why = "the counter is read under a shared (read) lock taken at " + c.P.InstrPos(rl)
+				}
+			}
+		}
+		R.Check("R6", c.P.FuncKey(f), "lock held from counter read to advance", c.P.Pos(f.Pos()), ok,
+			"no Unlock lies between reading the keyset counter and advancing it; the counter is not read under a shared lock", why)
+	}
+	if n == 0 {
+		R.Unresolved("R6", "wallet functions that read and advance a counter", "none found")
 	}
 }
